@@ -25,6 +25,23 @@ def runEndpoint : P String := do
   | .err s => pure ("err site=" ++ s)
   | .panic w => pure ("panic " ++ w)
 
+/-- `endpoint2 <binding> <location> <responseLocation>`: Endpoint.UnmarshalXML -/
+def runEndpoint2 : P String := do
+  let b ← str; let l ← bytes; let r ← bytes
+  match unmarshalEndpoint b l r with
+  | .ok (l', r') => pure ("ok " ++ encBytes l' ++ " " ++ encBytes r')
+  | .err s => pure ("err site=" ++ s)
+  | .panic w => pure ("panic " ++ w)
+
+/-- `endpoint3 <binding> <location> <responseLocation?>`: IndexedEndpoint.UnmarshalXML -/
+def runEndpoint3 : P String := do
+  let b ← str; let l ← bytes; let r ← opt bytes
+  match unmarshalIndexedEndpoint b l r with
+  | .ok (l', none) => pure ("ok " ++ encBytes l' ++ " -")
+  | .ok (l', some r') => pure ("ok " ++ encBytes l' ++ " + " ++ encBytes r')
+  | .err s => pure ("err site=" ++ s)
+  | .panic w => pure ("panic " ++ w)
+
 def runHtmlEsc : P String := do
   let b ← bytes
   pure (encBytes (htmlEscape b))
@@ -34,6 +51,6 @@ def runUrlAttr : P String := do
   pure (encBytes (urlAttrEscape b))
 
 def handlers : List (String × P String) :=
-  [("render", runRender), ("endpoint", runEndpoint), ("htmlesc", runHtmlEsc), ("urlattr", runUrlAttr)]
+  [("render", runRender), ("endpoint", runEndpoint), ("endpoint2", runEndpoint2), ("endpoint3", runEndpoint3), ("htmlesc", runHtmlEsc), ("urlattr", runUrlAttr)]
 
 end SamlVerif.Driver.HtmlD
